@@ -211,7 +211,7 @@ def gen_case(rng, row, draw, thorough=False):
         c["reloc"] = [[bytes(rng.getrandbits(8) for _ in range(rng.choice([0, 1, 3, 4, 5, 16, 17, rng.randrange(1, 300)]))).hex(), d] for d in dsts]
     if _has(mixins, "CertBlockV1"):
         pool = list(RSA_VARIANTS) if thorough else RSA_QUICK
-        c["cert"] = {"kind": "v1", "id": pool[(draw + rng.randrange(len(pool))) % len(pool)] if draw >= len(pool) else pool[draw % len(pool)]}
+        c["cert"] = {"kind": "v1", "id": pool[(draw + rng.randrange(len(pool))) % len(pool)]}
     if _has(mixins, "CertBlockV21"):
         curve = rng.choice([256, 384])
         n = rng.choice([1, 2, 3, 4])
@@ -503,6 +503,11 @@ def eval_case(case, row):
         obs["cert"] = cb[1].hex() if cb[0] == "ok" else None
         obs["cert_size"] = obj.cert_block.expected_size
         obs["sig_size"] = obj.cert_block.signature_size
+    if "cert" in case and case["cert"]["kind"] == "vx":
+        cb = pyres(obj.cert_block.export)       # creates the ISK signature (kept for the later exports)
+        obs["cert"] = cb[1].hex() if cb[0] == "ok" else None
+        ch = pyres(lambda: obj.cert_block.cert_hash)
+        obs["cert_hash"] = ch[1].hex() if ch[0] == "ok" else None
     m = getattr(obj, "manifest", None)
     if m is not None and getattr(m, "digest_hash_algo", None):
         obs["digest"] = m.digest_hash_algo.label
@@ -558,6 +563,31 @@ def eval_case(case, row):
                 applen += sum(len(bytes.fromhex(i)) + (-len(bytes.fromhex(i)) % 4) for i, _ in case["reloc"]) + 16 * len(case["reloc"]) + 16
             if w28 != applen:
                 fail("IVT certificate-block offset is not the length of application (+ relocation table)", w28, applen)
+    # ---------------- mc56 (Vx) images: the fields the tool writes describe the emitted bytes (recomputed independently)
+    if _has(mixins, "BcaTable") and len(e) >= 0xC00:
+        import hashlib
+        if _has(mixins, "CrcSignBca"):
+            st_, cnt, val = struct.unpack_from("<3I", e, 0x3C4)
+            if (st_, cnt, val) != (0xC00, len(e) - 0xC00, crc32_mpeg2(e[0xC00:])):
+                fail("mc56 CRC image: the BCA words (CRC start / byte count / value) do not describe the data part of the image",
+                     [hex(st_), cnt, hex(val)], [hex(0xC00), len(e) - 0xC00, hex(crc32_mpeg2(e[0xC00:]))])
+        if _has(mixins, "EccSignVx") and not case.get("just_header"):
+            signed = e[:0x360] + e[0x3C0:0x400] + e[0xC00:]
+            if e[0x360:0x380] != hashlib.sha256(signed).digest():
+                fail("mc56 signed image: the image digest is not SHA-256 of header[0:0x360] + BCA[0x3C0:0x400] + data[0xC00:] of the emitted image",
+                     e[0x360:0x380].hex(), hashlib.sha256(signed).hexdigest())
+            il, fw = struct.unpack_from("<2I", e, 0x3E0)
+            if (il, fw) != (len(e) - 0xC00 + 0x3A0, case.get("fw", 0)):
+                fail("mc56 signed image: BCA image length / firmware version do not describe the image", [il, fw], [len(e) - 0xC00 + 0x3A0, case.get("fw", 0)])
+            try:
+                from cryptography.hazmat.primitives import hashes, serialization
+                from cryptography.hazmat.primitives.asymmetric import ec, utils
+                pub = serialization.load_pem_public_key(_file(KC_ECC / "ec_secp256r1_sign_cert.pem")) if b"PUBLIC KEY" in _file(KC_ECC / "ec_secp256r1_sign_cert.pem") \
+                    else __import__("cryptography.x509", fromlist=["x"]).load_pem_x509_certificate(_file(KC_ECC / "ec_secp256r1_sign_cert.pem")).public_key()
+                sg = e[0x380:0x3C0]
+                pub.verify(utils.encode_dss_signature(int.from_bytes(sg[:32], "big"), int.from_bytes(sg[32:], "big")), signed, ec.ECDSA(hashes.SHA256()))
+            except Exception as exc:  # noqa: BLE001
+                fail("mc56 signed image: the signature does not verify (cryptography, ISK key) over header + BCA + data of the emitted image", type(exc).__name__)
     # ---------------- malformed variants (model vs implementation only; the property says nothing about them)
     if case.get("malformed") and has_ivt and not _has(mixins, "CertBlockV1", "CertBlockV21"):
         mal = []
@@ -631,7 +661,8 @@ def eval_case(case, row):
             kf = RSA_VARIANTS[ct["id"]][3] if ct["kind"] == "v1" else \
                 KC_ECC / (f"ec_pk_secp{ct['isk']}r1_sign_cert.pem" if ct["isk"] else f"ec_pk_secp{ct['curve']}r1_cert{ct['used']}.pem")
         # (the parsed object is used before its own re-export changes nothing observable: create_config only reads)
-        cb = bytes.fromhex(obs["cert"]) if "cert" in case and case["cert"]["kind"] == "v21" and obs.get("cert") else None
+        # v1 and v2.1 blocks carry only HASHES of the root keys that do not sign: their YAML cannot name those keys again (C03)
+        cb = bytes.fromhex(obs["cert"]) if "cert" in case and case["cert"]["kind"] in ("v1", "v21") and obs.get("cert") else None
         cr = config_roundtrip(case, row, p, e, sr, ir, kf, cb)
         obs["cfg_rt"] = "ok" if cr is None else cr[0]
         if cr is not None:
@@ -669,7 +700,7 @@ def config_roundtrip(case, row, p, e, sr, ir, key_file, cert_bin=None):
         if "outputImageEncryptionKeyFile" in cfg:
             cfg["outputImageEncryptionKeyFile"] = case.get("hkey")
         if cert_bin is not None:
-            # a v2.1 certificate block carries only the hashes of the other root keys: its YAML cannot name them again
+            # a certificate block carries only the hashes of the other root keys: its YAML cannot name them again
             # (certificate block configuration is property C03); hand the block itself back as a binary
             Path(out, "cert_block.bin").write_bytes(cert_bin)
             cfg["certBlock"] = "cert_block.bin"
@@ -706,20 +737,17 @@ def malformed_variants(rng_seed, e, case, tzs):
         b[off:off + 4] = struct.pack("<I", val & 0xFFFFFFFF)
         return bytes(b)
     w20, w24 = struct.unpack_from("<2I", e, 0x20)
-    # lengths are kept multiples of 4 (the `app` setter pads a parsed application to 4 again; the model's parser does not model
-    # that padding because every exported image is aligned)
-    for L in {0, 0x10, 0x24, 0x34, 0x38, 0x3C, n - 4, max(0, n - tzs), max(0, n - tzs - 4), 4 * rng.randrange(n // 4 + 1)}:
+    for L in {0, 0x10, 0x24, 0x27, 0x34, 0x37, 0x38, 0x39, 0x3C, n - 4, n - 1, max(0, n - tzs), max(0, n - tzs - 1), max(0, n - tzs - 4),
+              4 * rng.randrange(n // 4 + 1), rng.randrange(n + 1)}:
         if w20 == 0 or L >= 0x24:
             out.append(("trunc", e[:L]))
     if w20 != 0:
         for v in (n + 1, 0xFFFFFFFF, n - 1, 0x38, 1):
             out.append(("total_len", put(0x20, v)))
     for bit in (6, 7, 10, 11, 12, 13, 14, 15, 16, 31):
-        if bit == 13 and tzs == 0:
-            continue   # custom TrustZone data of a family without TrustZone database: the model has no preset size to refuse
         out.append((f"flag_bit{bit}", put(0x24, w24 ^ (1 << bit))))
     out.append(("tz3", put(0x24, w24 | (3 << 13))))
-    out.append(("append", e + bytes(rng.getrandbits(8) for _ in range(rng.choice([4, 8, 16, 20])))))
+    out.append(("append", e + bytes(rng.getrandbits(8) for _ in range(rng.choice([1, 2, 3, 4, 8, 16, 17])))))
     if "reloc" in case:
         b = bytearray(e)
         tail = n - (len(bytes.fromhex(case["tz"][1])) if case.get("tz", ["e"])[0] == "c" else 0)
@@ -766,7 +794,7 @@ def cli_roundtrip(case, row, scratch):
         if "ver" in case:
             cfg["imageVersion"] = case["ver"]
         if "sub" in case:
-            cfg["outputImageSubtype"] = "MAIN" if case["sub"] == 0 else "NBU" if _has(mixins, "ManifestDigest") or fam.startswith(("k32", "kw4", "mcxw7")) else "RECOVERY"
+            cfg["outputImageSubtype"] = "main" if case["sub"] == 0 else "nbu" if _has(mixins, "ManifestDigest") or fam.startswith(("k32", "kw4", "mcxw7")) else "recovery"
         if "tz" in case:
             cfg["enableTrustZone"] = case["tz"][0] != "d"
             if case["tz"][0] == "c":
@@ -804,7 +832,7 @@ def cli_roundtrip(case, row, scratch):
 
         def run(args):
             res = runner.invoke(nxpimage.main, args, catch_exceptions=True)
-            return res.exit_code, (res.output or "")[-300:] + (repr(res.exception) if res.exception and res.exit_code != 0 else "")
+            return res.exit_code, (res.output or "")[-300:] + (str(res.exception)[:300] if res.exception and res.exit_code != 0 else "")
         cwd = os.getcwd()
         os.chdir(out)
         try:
@@ -828,7 +856,7 @@ def cli_roundtrip(case, row, scratch):
                 pc["signPrivateKey"] = str(kf)
             if "outputImageEncryptionKeyFile" in pc:
                 pc["outputImageEncryptionKeyFile"] = case.get("hkey")
-            if cert_bin is not None and case["cert"]["kind"] == "v21":
+            if cert_bin is not None:
                 (out / "parsed" / "cert_block.bin").write_bytes(cert_bin)
                 pc["certBlock"] = "cert_block.bin"
             pc["masterBootOutputFile"] = "again.bin"
@@ -1001,6 +1029,8 @@ def run(ck, only_rows=None):
                    "header_describes / total_len_sum evaluate to true in the compiled Lean model (non-vacuity of the theorem hypotheses on the generator's inputs)")
     sm = ck.stream("malformed", "truncated / corrupted variants (length classes around 0x38 and the TrustZone block, total-length word, every flag bit, TrustZone type 3, "
                    "appended bytes, relocation header/entry fields) of exported plain and CRC images: accept/reject class and parsed settings, model vs implementation")
+    sv = ck.stream("vx", "every mc56f81xxx / mwct20x2 row (header-less 'Vx' images: plain, CRC in the BCA, ECC signed with ISK certificate): export bytes (real signature plugged in), "
+                   "parsed application / life cycle / firmware version, and the Vx theorem instances (frame outside the tool-owned ranges, parse(export)) in the compiled Model/MbiVx.lean")
     ctx = multiprocessing.get_context("fork")
     nproc = min(8, os.cpu_count() or 2)
     extra_drivers = []
@@ -1017,7 +1047,7 @@ def run(ck, only_rows=None):
     block = 96 if ck.quick else 24          # rows per block (bounds the memory of the thorough tier)
     for b0 in range(0, len(tasks), block):
         results = sorted(pool.imap_unordered(_work, tasks[b0:b0 + block], chunksize=2), key=lambda x: x[0])
-        _process_block(ck, results, drivers, shape_idx, groups, s, sc, st, sm)
+        _process_block(ck, results, drivers, shape_idx, groups, s, sc, st, sm, sv)
     pool.close()
     pool.join()
     # ---- command line entry points (CliRunner, in this process): first row of the mixin lists, valid option sets only
@@ -1054,7 +1084,7 @@ def run(ck, only_rows=None):
     ck.extra["shapes"] = len(shape_idx)
 
 
-def _process_block(ck, results, drivers, shape_idx, groups, s, sc, st, sm):
+def _process_block(ck, results, drivers, shape_idx, groups, s, sc, st, sm, sv):
     import concurrent.futures
     # ---- oracle results
     model_jobs = []   # (key, lines, real answers, inputs)
@@ -1071,6 +1101,23 @@ def _process_block(ck, results, drivers, shape_idx, groups, s, sc, st, sm):
             for f in fails:
                 finding = FINDING_MC56 if fixed_conflict else FINDING_KS if ks_empty_enc else None
                 s.expect(False, inp, f["what"], f["observed"], f["expected"], finding=finding)
+            if drivers and vx and "export" in obs and not (fixed >= 0 and itype != fixed and False):
+                kind = "signed" if _has(mixins, "EccSignVx") else "crc" if _has(mixins, "CrcSignBca") else "plain"
+                e = obs["export"]
+                sigb = bytes.fromhex(e)[0x380:0x3C0] if kind == "signed" and not e.startswith("E:") else b""
+                base = (f"kind={kind} app={case['app']} lifecycle={case.get('lifecycle', 255)} fw={case.get('fw', 0) if kind == 'signed' else 0} "
+                        f"cert={obs.get('cert') or '-'} certhash={obs.get('cert_hash') or '-'} addhash={int(bool(case.get('add_hash')))} "
+                        f"jh={int(bool(case.get('just_header')))} sig={_hx(sigb)}")
+                lines, real = ["vxexport " + base], [("ok:" + e) if not e.startswith("E:") else e]
+                if not e.startswith("E:"):
+                    lines.append("vxthm " + base)
+                    real.append("wf=1 frame=1 rt=1")
+                    if obs.get("parsed_cls") == cn and "parsed" in obs:
+                        g = obs["parsed"]
+                        lines.append(f"vxparse kind={kind} data={e}")
+                        real.append(f"ok:app={g.get('app') or '-'};lifecycle={g.get('lifecycle')};fw={(g.get('fw') or 0) if kind == 'signed' else 0}")
+                model_jobs.append((inp, lines, real))
+                continue
             if not drivers or vx or "export" not in obs:
                 continue
             e = obs["export"]
@@ -1091,6 +1138,10 @@ def _process_block(ck, results, drivers, shape_idx, groups, s, sc, st, sm):
                         e2 = bytes.fromhex(obs["reexport_bytes"])
                         lines.append(model_parse_line("reexport", case, obs, sh, tzs, eb, e2[sr[0]:sr[1]] if sr else b""))
                         real.append("ok:" + obs["reexport_bytes"])
+                if _has(mixins, "Bca") and not has_ivt_row(mixins):
+                    # mcxc (BCA / FCF blocks, no IVT): only the round-trip conclusion (`parse_export_mcxc`) is evaluated
+                    lines.append(model_export_line(case, obs, sh, tzs, sig).replace("export ", "thm ", 1) + " mcxc=1")
+                    real.append("rt=1")
                 if has_ivt_row(mixins) and case.get("ks", ["none"])[0] != "ks_empty":
                     # the theorems' hypotheses and conclusions evaluated on this very case by the compiled model
                     ln = model_export_line(case, obs, sh, tzs, sig).replace("export ", "thm ", 1)
@@ -1125,9 +1176,15 @@ def _process_block(ck, results, drivers, shape_idx, groups, s, sc, st, sm):
                     a = answers[k][pos]
                     pos += 1
                     op = ln.split(" ", 1)[0]
-                    if op == "mparse":
+                    if op in ("vxexport", "vxparse", "vxthm"):
+                        sv.note((inp["row"], hash(ln)))
+                        sv.compare({**inp, "op": op}, _short_line(r), _short_line(a), f"{op}: mc56 (Vx) model differs from implementation / theorem instance false")
+                    elif op == "mparse":
                         sm.note((inp["row"], hash(ln)))
                         sm.compare({**inp, "variant": ln[:0]}, _short_line(r), _short_line(a), "malformed image: parser verdict / settings differ between model and implementation")
+                    elif op == "thm" and ln.endswith(" mcxc=1"):
+                        st.note((inp["row"], hash(ln)))
+                        st.compare(inp, r, " ".join(t for t in a.split() if t.startswith("rt=")), "mcxc image: parse(export) = canon is false in the compiled model")
                     elif op == "thm":
                         st.note((inp["row"], hash(ln)))
                         st.compare(inp, r, a, "a generated valid case does not satisfy the hypotheses (wf/cwf) or the conclusions (rt: parse(export)=canon, "
